@@ -163,6 +163,31 @@ Section Walk.
     split; [exact WB|]. unfold walk. rewrite WB. reflexivity.
   Qed.
 
+
+  (* the same with 1-byte-sized header strings of any length: Save leaves the header with those
+     strings cut to 254 characters, and that header describes the file *)
+  Definition clip_model (m : model) : model :=
+    mkModel _ (clip_tables (m_hdr _ m)) (m_blocks _ m) (m_has_unknown _ m).
+
+  Lemma save_core_clip : forall m, wf_tables (clip_tables (m_hdr _ m)) ->
+    save_core m = save_core (clip_model m).
+  Proof.
+    intros m W. unfold ContainerModel.save_core, clip_model. cbn [m_hdr m_blocks m_has_unknown].
+    rewrite (put_hdr_clip_wf _ W). reflexivity.
+  Qed.
+
+  Theorem walk_save_long : forall m ps, wf_model (clip_model m) ps ->
+    let t' := set_sizes (clip_tables (m_hdr _ m)) (map (@vlen N) ps) in
+    exists bytes hb,
+      save_core m = Ok (bytes, clip_model m) /\
+      bytes = hb ++ concat ps ++ footer /\
+      get_hdr bytes = Ok (t', concat ps ++ footer) /\
+      walkb bytes = Some (t', ps) /\ walk bytes = Some t'.
+  Proof.
+    intros m ps W. rewrite save_core_clip by (apply (wfm_hdr _ _ W)).
+    exact (walk_save (clip_model m) ps W).
+  Qed.
+
   (* conversely: whatever the walker accepts is header ++ payloads of the declared sizes ++ footer,
      with nothing behind the footer *)
   Theorem walkb_sound : forall s t ps, walkb s = Some (t, ps) ->
